@@ -11,6 +11,11 @@ CHECKS = {
          "Runs every service of the quantifier inside the real server.Run dispatcher in child processes and drives grammar dialogues, truncations, mutations, raw bytes and SSH/TLS client sessions in several segmentations over 1..32 concurrent connections; a monitor decides from process exit/stderr, a post-scenario echo probe, a resident-memory guard with workload pause, and race-detector map reports. Held means: no execution in this run killed or wedged the process.",
          "Trusts the harness's in-memory listener to stand for the socket listener, and the Go runtime's fatal banners / race detector as sensors. Says nothing about inputs beyond the size bound or paths the generators do not reach.",
          "DESIGN.md §5 C01"),
+ "C02": ("exploration",
+         "runtime monitoring: frames through the real Start() receive loop (verif constructor), child-process liveness + fatal-banner classifier, UDP probe event after every batch",
+         "Writes enumerated field-boundary frames (IHL x total length x protocol x L4 length, TCP data offset x segment length, all 3-byte option layouts over a boundary alphabet, UDP length vs actual, short ICMP, odd ARP), seeded random/mutated frames and flood histories (70k distinct half-open attempts, mixed RST/FIN/ACK, 70k copies of one SYN) into the real receive loop under three ARP/route configurations; after each batch a well-formed UDP probe must still yield its event and the process must be alive.",
+         "Frames arrive over an AF_UNIX datagram socketpair registered on an unprivileged epoll instance (hook), not AF_PACKET. Held = no explored frame or history stopped the loop; nothing is claimed for frames outside the generators.",
+         "DESIGN.md §5 C02"),
 }
 
 NOT_YET = {
